@@ -1155,6 +1155,11 @@ class Context:
                     return JSFunction("anonymous", params, bytes(), {})
             except JSError:
                 raise
+            except RecursionError:
+                # The parser and compiler recurse on nesting depth: refuse, as eval() of the context does
+                raise JSError(
+                    "Program too large: expressions or statements are nested too deeply"
+                )
             except Exception as e:
                 raise JSError(f"SyntaxError: {str(e)}")
 
@@ -1299,6 +1304,11 @@ class Context:
                 # Limit errors, syntax errors and exceptions thrown by the evaluated
                 # code reach the calling script (or the embedder) unchanged
                 raise
+            except RecursionError:
+                # The parser and compiler recurse on nesting depth: refuse, as eval() of the context does
+                raise JSError(
+                    "Program too large: expressions or statements are nested too deeply"
+                )
             except Exception as e:
                 raise JSError(f"EvalError: {str(e)}")
 
